@@ -518,6 +518,9 @@ pub fn case_json(p: &Prepared, w: &WMap, debug: bool) -> J {
     })
 }
 
+/// Case number under which the corpus regression inputs are run (and replayed).
+pub const CORPUS_CASE: u64 = 1_000_000_000;
+
 /// Corpus regression inputs that come with a witness file: (file name, program, witness values).
 pub fn corpus_with_witness() -> Vec<(String, String, simfony::WitnessValues)> {
     let root = std::env::var("VERIF_ROOT").unwrap_or_else(|_| "/verif".into());
